@@ -12,7 +12,7 @@ use crate::tape::Tape;
 use serde_json::json;
 use std::time::Instant;
 
-fn explore(api: &Api, setting_ix: usize, pi: usize, seed: u64, cx: &mut Cx) {
+fn explore(api: &Api, setting_ix: usize, pi: usize, tier: Tier, seed: u64, cx: &mut Cx) {
     let pws = al::passwords_valid();
     let mut base = setting(setting_ix);
     base.pw = pws[pi].clone();
@@ -34,12 +34,30 @@ fn explore(api: &Api, setting_ix: usize, pi: usize, seed: u64, cx: &mut Cx) {
         }
     };
     cx.context_done();
-    for (qi, pw2) in pws.iter().enumerate() {
-        if qi == pi {
-            continue;
+    // login attempts: every other password of the alphabet; and, for the default and the 256-byte registered password,
+    // EVERY single-bit flip, every single-byte deletion and every single-byte duplication of the registered password
+    let mut attempts: Vec<Vec<u8>> = pws.iter().enumerate().filter(|(qi, _)| *qi != pi).map(|(_, p)| p.clone()).collect();
+    if pi == 0 || (pi == 12 && tier.thorough()) {
+        let b = &base.pw;
+        for i in 0..b.len() {
+            for bit in 0..8 {
+                let mut m = b.clone();
+                m[i] ^= 1 << bit;
+                attempts.push(m);
+            }
+            let mut m = b.clone();
+            m.remove(i);
+            attempts.push(m);
+            let mut m = b.clone();
+            m.insert(i, b[i]);
+            attempts.push(m);
         }
+    }
+    attempts.retain(|a| a != &base.pw);
+    for (qi, pw2) in attempts.iter().enumerate() {
         cx.begin_case(json!({"registered_pw": desc(&base.pw), "login_pw": desc(pw2), "setting": setting_ix}));
-        cx.state(&(setting_ix, pi, qi));
+        cx.state(&(setting_ix, pi, pw2));
+        let _ = qi;
         cx.path();
         cx.edges += 3;
         let r = (|| -> Result<(), (String, String)> {
@@ -83,13 +101,13 @@ pub fn run(tier: Tier, seed: u64) -> i32 {
             }
         }
     }
-    let tot = fw::run_items("C02", &items, |(a, _, _)| a.name().to_string(), |(api, s, pi), cx| explore(api, *s, *pi, seed, cx));
+    let tot = fw::run_items("C02", &items, |(a, _, _)| a.name().to_string(), |(api, s, pi), cx| explore(api, *s, *pi, tier, seed, cx));
     let rep = Report {
         property: "C02",
         tier,
         seed,
         rule: "all ordered pairs (registered, login) of distinct passwords from the 15-password alphabet x 2 identity/context settings x 20 suites; each pair is one path: login start, server start on the registered file, client finish, then 3 finalization candidates against the pending server state".into(),
-        bounds: json!({"suites": 20, "passwords": n, "ordered_pairs": n * (n - 1), "settings": 2, "quick_equals_thorough": true}),
+        bounds: json!({"suites": 20, "passwords": n, "ordered_pairs": n * (n - 1), "settings": 2, "near_misses_of_registered_password": "all single-bit flips, single-byte deletions and duplications of the default password (thorough: also of the 256-byte one)"}),
         assumptions: vec![],
         exhaustive: true,
         crosscheck: json!(null),
